@@ -1,8 +1,146 @@
-import Rangers.Model.Shamir
-/-! Property theorems for C13 (placeholder while the tie is being built). -/
-namespace Rangers.Props.C13
-open Rangers.Model
+import Rangers.Generated.Bn256Consts
+import Mathlib.Tactic.NormNum.Prime
+import Rangers.Proofs.C13Dkg
+/-!
+# C13 — any threshold subset of group members yields the same valid group signature
 
-theorem aggregate_nil (r : Nat) : Shamir.aggregateSeckeys r [] = none := rfl
+Theorems about `Model/Shamir.lean`, the model the driver `drv_c13` executes. `r` is the group
+order (a prime), `G`/`G₂`/`GT` are arbitrary `ZMod r`-modules standing for `bn256.G1`, `G2`, `GT`;
+that the Go types *are* such modules and `Pair` is bilinear is assumed (`LawfulOps`, `IsPairing`),
+sampled by the harness every run, not proved.
+-/
+namespace Rangers.Props.C13
+open Polynomial Finset Rangers.Model.Shamir Rangers.Proofs.C13 Rangers.Generated
+
+variable {r : Nat}
+
+/-! ## Sharing -/
+
+/-- `ShareSeckey(coeffs, id)` is the polynomial `Σ coeffs[i]·Xⁱ` evaluated at `id` in `ZMod r`,
+    reduced below `r`; it only fails (index panic) on an empty coefficient list. -/
+theorem share_is_eval (hr : 0 < r) (cs : List Nat) (x : Nat) :
+    (cs ≠ [] → ∃ v, shareSeckey r cs x = some v) ∧
+    (∀ v, shareSeckey r cs x = some v →
+      (v : ZMod r) = (polyOf (castList r cs)).eval (x : ZMod r) ∧ v < r) :=
+  ⟨shareSeckey_isSome r cs x, fun v h => ⟨shareSeckey_eval r cs x v h, shareSeckey_lt r hr cs x v h⟩⟩
+
+example : shareSeckey 13 [5, 3, 2] 4 = some ((5 + 3 * 4 + 2 * 16) % 13) := by decide
+
+/-- After the DKG member `x`'s key is `f(x)` for the sum polynomial `f = Σ_d f_d`, whose degree is
+    below the threshold `k`, and `f(0)` is the sum of the dealers' constant terms. -/
+theorem member_key_is_eval_of_sum (dealers : List (List Nat)) (k : Nat)
+    (hne : dealers ≠ []) (hk : ∀ cs ∈ dealers, cs ≠ [] ∧ cs.length ≤ k) (x : Nat) :
+    (∃ v, memberKey r dealers x = some v) ∧
+    (∀ v, memberKey r dealers x = some v → (v : ZMod r) = (groupPoly r dealers).eval (x : ZMod r)) ∧
+    (groupPoly r dealers).degree < k ∧
+    (∀ g, groupSecret r dealers = some g → (g : ZMod r) = (groupPoly r dealers).eval 0) :=
+  ⟨memberKey_isSome dealers x hne (fun cs h => (hk cs h).1),
+   fun v h => memberKey_eval dealers x v h,
+   degree_groupPoly_lt dealers k (fun cs h => (hk cs h).2),
+   fun g h => groupSecret_eval dealers g h⟩
+
+example : memberKey 13 [[1, 2], [3, 4]] 5 = some ((1 + 2 * 5 + 3 + 4 * 5) % 13) ∧
+    groupSecret 13 [[1, 2], [3, 4]] = some 4 := by decide
+
+/-- The group public key (`AggregatePubkeys` of the dealers' `coeffs[0]·g₂`) is `f(0)•g₂`. -/
+theorem group_pk {G₂ : Type} [AddCommGroup G₂] [Module (ZMod r) G₂] (ops : Ops G₂) (hops : LawfulOps r ops)
+    (dealers : List (List Nat)) (hd : dealers ≠ []) (g2 : G₂) :
+    aggregatePoints ops.add (dealers.map (fun cs => ops.mul g2 (cs.headD 0))) =
+      some ((groupPoly r dealers).eval 0 • g2) :=
+  aggregatePoints_pk ops hops dealers hd g2
+
+/-! ## Lagrange coefficients -/
+
+/-- The executable `delta`s of `recoverSignature` are the Lagrange basis polynomials at `0`
+    whenever the ids are pairwise distinct mod `r` (then every `ModInverse` succeeds). -/
+theorem lagrange_matches [Fact r.Prime] (xs : List Nat) (hd : IdsDistinct r xs) :
+    (lagrangeCoeffs r xs).length = xs.length ∧
+    ∀ i, i < xs.length →
+      (((lagrangeCoeffs r xs).getD i 0 : Nat) : ZMod r) =
+        (Lagrange.basis (range xs.length) (pt r xs) i).eval 0 :=
+  ⟨lagrangeCoeffs_length xs, fun i hi => lagrangeCoeffs_eq_basis xs hd i hi⟩
+
+example : IdsDistinct 13 [1, 2, 3] ∧ lagrangeCoeffs 13 [1, 2, 3] = [3, 10, 1] := by decide
+
+/-! ## Recovery -/
+
+/-- The shares `f(xᵢ)·h` of the ids `ids` for the coefficient list `cs`, as the model computes them. -/
+def honestShares (ops : Ops G) (r : Nat) (cs : List Nat) (h : G) (ids : List Nat) : List G :=
+  ids.map (fun x => ops.mul h ((shareSeckey r cs x).getD 0))
+
+variable {G : Type} [AddCommGroup G] [Module (ZMod r) G]
+
+/-- **recover_any_subset** (proved under `IdsDistinct`, hence `_partial`): for every list of at
+    least `deg f + 1` ids, pairwise distinct mod `r`, in any order, `recoverSignature` applied to the
+    shares `f(xᵢ)•h` returns `f(0)•h`. The list is arbitrary, so this is independence of subset
+    and of order. -/
+theorem recover_any_subset_partial [Fact r.Prime] (ops : Ops G) (hops : LawfulOps r ops)
+    (cs : List Nat) (hcs : cs ≠ []) (h : G) (ids : List Nat)
+    (hk : cs.length ≤ ids.length) (hd : IdsDistinct r ids) :
+    recoverWith ops r ids (honestShares ops r cs h ids) = .ok (some (ops.mul h (cs.headD 0))) := by
+  have hne : ids ≠ [] := by
+    intro h0; subst h0
+    have : cs.length = 0 := by simpa using hk
+    exact hcs (List.length_eq_zero_iff.1 this)
+  have hdeg : (polyOf (castList r cs)).degree < ids.length := by
+    refine lt_of_lt_of_le (degree_polyOf_lt _) ?_
+    simp only [castList, List.length_map]; exact_mod_cast hk
+  have := recoverWith_poly ops hops ids hne hd (polyOf (castList r cs)) hdeg
+    (ids.map (fun x => (shareSeckey r cs x).getD 0)) (by simp) (by
+      intro t ht
+      obtain ⟨v, hv⟩ := shareSeckey_isSome r cs (ids.getD t 0) hcs
+      have hg : (ids.map (fun x => (shareSeckey r cs x).getD 0)).getD t 0 = v := by
+        rw [List.getD, List.getElem?_map, List.getElem?_eq_getElem ht]
+        simp only [Option.map_some, Option.getD_some]
+        have : ids[t] = ids.getD t 0 := by simp [List.getD, List.getElem?_eq_getElem ht]
+        rw [this, hv]; rfl
+      rw [hg, shareSeckey_eval r cs _ v hv]; rfl) h
+  unfold honestShares
+  rw [List.map_map] at this
+  have h0 : (polyOf (castList r cs)).eval 0 = ((cs.headD 0 : Nat) : ZMod r) := by
+    rw [eval_zero_polyOf]; cases cs <;> simp [castList]
+  rw [hops.mul_eq, ← h0]
+  exact this
+
+/-- `ZMod n` as a module over itself: the concrete instance used for non-vacuity examples and
+    counterexamples. -/
+def zops (n : Nat) : Ops (ZMod n) := ⟨(· + ·), fun g k => (k : ZMod n) * g⟩
+
+theorem zops_lawful (n : Nat) : LawfulOps n (zops n) :=
+  ⟨fun _ _ => rfl, fun _ _ => rfl⟩
+
+instance : Fact (Nat.Prime 13) := ⟨by norm_num⟩
+
+/-- non-vacuity: a concrete instance of all hypotheses (`r = 13`, `f = 5 + 3X + 2X²`, ids 1, 15, 3 —
+    15 ≥ r is reduced implicitly, as the node does with 256-bit ids), and the model computes `f(0)`. -/
+example : ([5, 3, 2] : List Nat) ≠ [] ∧ IdsDistinct 13 [1, 15, 3] ∧
+    recoverWith (zops 13) 13 [1, 15, 3] (honestShares (zops 13) 13 [5, 3, 2] 1 [1, 15, 3]) = .ok (some 5) ∧
+    recoverWith (zops 13) 13 [15, 3, 1, 7] (honestShares (zops 13) 13 [5, 3, 2] 1 [15, 3, 1, 7]) = .ok (some 5) := by
+  decide
+
+/-- The statement as the property words it: *every* choice of (distinct) member ids. -/
+def FullStatementRecover (r : Nat) : Prop :=
+  ∀ (G : Type) [AddCommGroup G] [Module (ZMod r) G] (ops : Ops G), LawfulOps r ops →
+    ∀ (cs : List Nat), cs ≠ [] → ∀ (h : G) (ids : List Nat), cs.length ≤ ids.length → ids.Nodup →
+      (∀ x ∈ ids, x < 2 ^ 256) →
+      recoverWith ops r ids (honestShares ops r cs h ids) = .ok (some (ops.mul h (cs.headD 0)))
+
+instance : Fact (1 < Bn256.order) := ⟨by decide⟩
+
+/-- The full statement is false for the group order of the code: the 256-bit ids `1` and `1 + r`
+    are distinct but congruent mod `r`; both `ModInverse` calls fail, both `delta`s are `0`, and the
+    two shares of `f = 1 + X` recover `0` instead of `f(0) = 1`. Replayed on the implementation:
+    `corpus/C13/collide.ops` (known finding `ids-congruent-mod-order`). -/
+theorem recover_any_subset_counterexample : ¬ FullStatementRecover Bn256.order := by
+  intro hfull
+  have h := hfull (ZMod Bn256.order) (zops Bn256.order) (zops_lawful _) [1, 1] (by decide) 1
+    [1, 1 + Bn256.order] (by decide) (by decide) (by decide)
+  have hl : lagrangeCoeffs Bn256.order [1, 1 + Bn256.order] = [0, 0] := by decide
+  simp [recoverWith, honestShares, accumulate, hl, zops] at h
+
+/-- The same witness at the scalar level: the deltas the model (and the Go code) computes. -/
+theorem lagrange_collision_counterexample :
+    lagrangeCoeffs Bn256.order [1, 1 + Bn256.order] = [0, 0] ∧ ¬ IdsDistinct Bn256.order [1, 1 + Bn256.order] := by
+  decide
 
 end Rangers.Props.C13
